@@ -115,7 +115,7 @@ def run_chef(mods, ref, cfg, serial, ctx, canary=False, free_T_cell=None, prior=
         if prior is not None:
             # a history in one process: another Chef cooks first (another recipe, another pressure)
             try:
-                ch0 = chefmod.Chef(plotfile='plt', recipe=prior[1], outfile='out0', serial=True, kept_fields=prior[3], **prior[2])
+                ch0 = chefmod.Chef(plotfile='plt', recipe=prior[1], outfile='out0', serial=serial, kept_fields=prior[3], **prior[2])
                 if callable(getattr(ch0, 'recipe', None)) and hasattr(ch0.recipe, '__globals__'):
                     ch0.recipe.__globals__['np'] = npfacade.facade
                 ch0.cook()
@@ -186,17 +186,21 @@ def run_case(case):
     HIST = [(('ENT+kept', 'ENT', {'mech': 'm.yaml', 'pressure': 2.0}, 'temp', ['Enthalpy']), ('HRR@3', 'HRR', {'mech': 'm.yaml', 'pressure': 3.0}, 'density', ['HeatRelease'])),
             (('HRR', 'HRR', {'mech': 'm.yaml', 'pressure': 1.0}, None, ['HeatRelease']), ('SDi@5+kept', 'SDi', {'mech': 'm.yaml', 'pressure': 5.0, 'species': ['H2', 'O2']}, 'a', ['DI(H2)', 'DI(O2)'])),
             (('user-multi+kept', os.path.join(RECIPES, 'r_multi.py'), {}, 'density', ['twice_a_plus_rho', 'a_times_rho']), ('user-single', os.path.join(RECIPES, 'r_single.py'), {}, 'temp', ['a_plus_2rho']))]
-    for prior, cfg in HIST:
-        def hpath(ctx, cfg=cfg, prior=prior):
-            return run_chef(mods, ref, cfg, True, ctx, prior=prior)
+    for hi, (prior, cfg) in enumerate(HIST):
+      for serial in (True, False):
+        if common.TIER == 'quick' and (hi + case['k'] + int(serial)) % 2:
+            continue
+
+        def hpath(ctx, cfg=cfg, prior=prior, serial=serial):
+            return run_chef(mods, ref, cfg, serial, ctx, prior=prior)
         results, exhaustive, stats = core.explore(hpath, max_paths=16)
         res.add_explore(results, exhaustive, stats)
         for ctx, obl in results:
             res.add_obl(obl)
             if obl.failed and not ctx.flags:
-                sig = 'C11/history/%s-after-%s' % (cfg[0], prior[0])
+                sig = 'C11/history/%s/%s-after-%s' % ('serial' if serial else 'parallel', cfg[0], prior[0])
                 if sig not in viol:
-                    viol[sig] = {'signature': sig, 'what': obl.failed[0][0][:400], 'cfg': cfg, 'serial': True, 'model': obl.failed[0][1] or ctx.model(), 'prior': prior}
+                    viol[sig] = {'signature': sig, 'what': obl.failed[0][0][:400], 'cfg': cfg, 'serial': serial, 'model': obl.failed[0][1] or ctx.model(), 'prior': prior}
     # kept temperature must stay bit-identical even where the thermo state is "cleaned" (T = 0 in one cell)
     cfgk = ('HRR+kept', 'HRR', {'mech': 'm.yaml', 'pressure': 1.0}, 'temp', ['HeatRelease'])
 
@@ -316,6 +320,12 @@ def cases():
     lays = families.all_layouts(3, 2)
     for j, lay in enumerate(lays[::3] if tier == 'quick' else lays):
         out.append({'label': '3box/layout%s' % (lay,), 'mesh': m3, 'layout': [lay], 'geom': 1, 'k': j})
+    for r in range(1 if tier == 'quick' else 24):
+        m = families.random_mesh(rnd, 3, max_levels=2, max_boxes=3, max_extent=2)
+        if sum(int(np.prod([h - l + 1 for l, h in zip(blo, bhi)])) for lv in m.boxes for blo, bhi in lv) > 40:
+            continue
+        m.name = 'rand%d' % r
+        out.append({'label': m.name, 'mesh': m, 'layout': families.scatter_layouts(m, rnd, max_files=2), 'geom': r % 3, 'k': r})
     return out
 
 
